@@ -49,16 +49,19 @@ class Path(Expression):
         return isinstance(other, Path) and self.path == other.path
 
     def __str__(self) -> str:
-        it = iter(self.path)
-        buf = [str(next(it))]
-        for segment in it:
+        buf: list[str] = []
+        for i, segment in enumerate(self.path):
             if isinstance(segment, Path):
                 buf.append(f"[{segment}]")
             elif isinstance(segment, str):
                 if RE_PROPERTY.fullmatch(segment):
-                    buf.append(f".{segment}")
+                    # Shorthand notation. The root segment has no leading dot.
+                    buf.append(f".{segment}" if i else segment)
                 else:
-                    buf.append(f"[{segment!r}]")
+                    # Liquid string literals have no escape sequences, so don't
+                    # use `repr()`. Pick the quote that does not appear in the name.
+                    quote = '"' if "'" in segment and '"' not in segment else "'"
+                    buf.append(f"[{quote}{segment}{quote}]")
             else:
                 buf.append(f"[{segment}]")
         return "".join(buf)
